@@ -61,6 +61,13 @@ map.setdefault(k, v)`, also bound to a local first) - the helper's fills are jud
 labels; an accumulator that is a MUTABLE DEFAULT ARGUMENT the call does not pass is REFUTED (shared by all calls; C10-r72).
 "No registration scans the R of every selected task" is REFUTED only when the rebuild of R is made of clone-map lookups
 (otherwise UNDECIDED: a rebuild that returns outside tasks directly needs no registration).
+F39: obligation `outside_links_by_identity` - ids are unique inside one WBS only, so an outside link end must reach the copy
+as itself: `[x if x.wbs != self else map[x.id] for x in src.R if x.wbs != self or x.id in map]` (either branch order, `is not`,
+De Morgan forms, `id in <selection by id>`, hoisted pre-filter, if/elif accumulator, outside test in a one-line helper) is
+PROVED - element and filter are judged as a truth table over (outside, id in map); every registration of a non-clone in the
+clone map (`setdefault(x.id, x)`, guarded store, staged dict) is REFUTED there, as is a rebuild that looks every link end up by
+id when nothing is registered.  The older clauses still analyse the registration form (owner test, coverage) so that seeded
+changes of that form keep their verdicts.
 Not decided (C10-r71): duplicate / overlapping roots handed to the children setter - the outcome depends on the counting
 logic of task._has_id_intersection (id-uniqueness check, C05), which this module does not read.
 
@@ -89,9 +96,10 @@ def check(ctx):
     prog = ctx.prog
 
     o = ctx.ob('provenance', 'R9',
-               "in __clone_tasks/__clone the clone map is {t.id: t.clone()} over roots + descendants, outside tasks enter only by "
-               "setdefault under `x.wbs != self`, every relation assignment has a copy as receiver and clone-map lookups as "
-               "arguments, and nothing is written through a source object", floor=11)
+               "in __clone_tasks/__clone the clone map is {t.id: t.clone()} over roots + descendants, outside tasks reach the copy "
+               "only under `x.wbs != self` (as themselves; an id-keyed registration in the clone map is judged by "
+               "outside_links_by_identity), every relation assignment has a copy as receiver and clone-map lookups / guarded outside "
+               "tasks as arguments, and nothing is written through a source object", floor=11)
     ctx.guarded(o, lambda o: clone_provenance(ctx, o, ('map', 'externals', 'receivers', 'no-source-writes')))
 
     o = ctx.ob('fields', 'R9',
@@ -148,12 +156,18 @@ def _owner(ctx, o):
     sn = wi.self_name
     root_store = [(st, val) for st, attr, val in _self_stores(wi) if attr == '_WBS__root']
     rv = root_store[0][1] if len(root_store) == 1 else None
+    root_alias = None
+    if isinstance(rv, ast.Name) and len(Expander(prog, wi, ctx.typer).flow.defs_of(rv.id)) == 1:
+        # sentinel built through a hoisted local:  root = Task(EMPTY_TASK_ID, ..); self.__root = root; root._attach(self)
+        root_alias = rv.id
+        rv = Expander(prog, wi, ctx.typer).expand(rv, cfg.node_of(root_store[0][0]))
     if not (isinstance(rv, ast.Call) and isinstance(rv.func, ast.Name) and rv.func.id == 'Task' and rv.args
             and isinstance(rv.args[0], ast.Name) and rv.args[0].id == 'EMPTY_TASK_ID') or cfg.conditions(cfg.node_of(root_store[0][0])):
         o.undecided(wi, wi.node, '__root', "WBS.__init__ does not create its sentinel as `self.__root = Task(EMPTY_TASK_ID, ...)`")
     else:
         o.site(wi, root_store[0][0], "sentinel root created")
-        att = [c for c in facts.calls_named(wi, '_attach') if match(f"{sn}._WBS__root._attach($w)", c)]
+        att = [c for c in facts.calls_named(wi, '_attach') if match(f"{sn}._WBS__root._attach($w)", c) or
+               (root_alias and match(f"{root_alias}._attach($w)", c))]
         good = [c for c in att if isinstance(c.args[0], ast.Name) and c.args[0].id == sn and not cfg.conditions(cfg.node_containing(c))
                 and cfg.dominates(cfg.node_of(root_store[0][0]), cfg.node_containing(c))]
         if good:
@@ -316,6 +330,73 @@ def _owner_flat(ctx, o, fn, wp) -> bool:
     return True
 
 
+def _owner_worklist(ctx, o, fn, wp) -> bool:
+    """explicit worklist instead of recursion:
+           pending = [self]
+           while pending: t = pending.pop(); t.__wbs = wp; pending.extend(reversed(t.__children))
+    Returns True when the function is written in this form (verdict recorded)"""
+    acfg = cfg_of(fn)
+    sn = fn.self_name
+    whiles = [n for n in walk_no_nested(fn.node) if isinstance(n, ast.While)]
+    stores = facts.attr_stores(fn, '_Task__wbs')
+    if len(whiles) != 1 or len(stores) != 1:
+        return False
+    w = whiles[0]
+    s_, t_, v_ = stores[0]
+    m = match("len($w) > 0", w.test) or match("len($w)", w.test)
+    wl = w.test.id if isinstance(w.test, ast.Name) else (m['w'].id if m and isinstance(m['w'], ast.Name) else None)
+    if wl is None or not any(x is s_ for x in ast.walk(w)) or not isinstance(t_.value, ast.Name):
+        return False
+    cur = t_.value.id
+    flow = Expander(ctx.prog, fn, ctx.typer).flow
+    pops = [d for d in flow.defs_of(cur) if d.kind == 'assign' and d.value is not None and
+            (match(f"{wl}.pop()", d.value) or match(f"{wl}.pop(0)", d.value) or match(f"{wl}.pop(-1)", d.value))]
+    inits = [d for d in flow.defs_of(wl) if d.kind == 'assign']
+    if len(pops) != 1 or len(flow.defs_of(cur)) != 1 or len(inits) != 1 or not any(x is pops[0].stmt for x in w.body):
+        return False
+    cn = acfg.node_of(s_)
+    inner = [c for c in acfg.conditions(cn) if c[0] is not w.test]
+    inverted, other = _none_guard_only(inner, wp)
+    feeds = []
+    for n in ast.walk(w):
+        x = None
+        if isinstance(n, ast.Call) and match(f"{wl}.extend($x)", n):
+            x = n.args[0]
+        elif isinstance(n, ast.AugAssign) and isinstance(n.target, ast.Name) and n.target.id == wl and isinstance(n.op, ast.Add):
+            x = n.value
+        if x is not None:
+            while isinstance(x, ast.Call) and isinstance(x.func, ast.Name) and x.func.id in ('reversed', 'list', 'tuple') and len(x.args) == 1:
+                x = x.args[0]
+            fc = acfg.node_containing(n) if isinstance(n, ast.Call) else acfg.node_of(n)
+            cond_free = not [c for c in acfg.conditions(fc) if c[0] is not w.test and not any(c[0] is i[0] for i in inner)]
+            feeds.append((x, cond_free))
+    init_parts = _descendant_parts(inits[0].value, sn)
+    if not (isinstance(v_, ast.Name) and v_.id == wp) or not any(x is s_ for x in w.body):
+        o.undecided(fn, s_, s_, f"Task.{fn.name} stores the owner inside a worklist loop in a form the rule does not follow")
+    elif inverted:
+        o.refute(fn, s_, s_, f"Task.{fn.name} stores the owner only when `{wp}` is None (inverted early return): a task attached to a WBS "
+                             f"never reports it as owner")
+    elif other or '?' in init_parts:
+        o.undecided(fn, s_, s_, f"Task.{fn.name} stores the owner under a condition / from a start set the rule does not interpret")
+    elif 'self' not in init_parts:
+        o.refute(fn, s_, inits[0].value, f"the worklist of Task.{fn.name} starts from `{src(inits[0].value)[:50]}`: the attached task itself is "
+                                         f"left out and does not report the new WBS")
+    elif not any((match(f"{cur}.children", x) or match(f"{cur}._Task__children", x)) and ok for x, ok in feeds):
+        if 'desc' in init_parts:
+            o.site(fn, s_, f"{fn.name}: m.__wbs = {wp} for every member of the worklist [self] + all descendants")
+            o.site(fn, w, f"{fn.name} covers every descendant (worklist seeded with all descendants)")
+        elif feeds:
+            o.undecided(fn, w, w.test, f"Task.{fn.name}: the worklist is fed with `{src(feeds[0][0])[:50]}`, not unconditionally with the "
+                                       f"children of the task just taken")
+        else:
+            o.refute(fn, w, w.test, f"the worklist of Task.{fn.name} is never fed with the children of the task just taken: descendants of "
+                                    f"the attached roots keep owner None")
+    else:
+        o.site(fn, s_, f"{fn.name}: t.__wbs = {wp} for every task taken from the worklist")
+        o.site(fn, w, f"{fn.name} covers every descendant (worklist fed with the children of each task taken)")
+    return True
+
+
 def _owner_setter(ctx, o, fn, wp, depth):
     """fn(self, wp) stores wp into self.__wbs (skipping at most `wp is None`) and does the same for every child - directly or
     through one private helper it forwards (self, wp) to"""
@@ -346,6 +427,12 @@ def _owner_setter(ctx, o, fn, wp, depth):
                 _owner_setter(ctx, o, h, h.params[1], 1)
             return
     if not ws and _owner_flat(ctx, o, fn, wp):
+        return
+    if not ws and _owner_worklist(ctx, o, fn, wp):
+        return
+    if not ws and facts.attr_stores(fn, '_Task__wbs'):
+        o.undecided(fn, fn.node, '_attach store', f"Task.{fn.name} stores the owner through `{src(facts.attr_stores(fn, '_Task__wbs')[0][1])}`, "
+                                                  f"in a traversal the rule does not follow")
         return
     if len(ws) == 1 and isinstance(ws[0][1], ast.Name) and ws[0][1].id == wp:
         inverted, other = _none_guard_only(acfg.conditions(acfg.node_of(ws[0][0])), wp)
